@@ -59,7 +59,7 @@ pub fn c07_foreign_history(ctx: &Ctx, out: &mut RunOut) -> Result<(), Violation>
 /// (b) revisions written by lopdf's IncrementalDocument on top of a lopdf-saved
 /// or foreign base, re-loading after every step.
 pub fn c07_lopdf_updates(ctx: &Ctx, out: &mut RunOut) -> Result<(), Violation> {
-    for k in ["update-on-top-of-update", "foreign-base", "lopdf-base"] {
+    for k in ["update-on-top-of-update", "foreign-base", "lopdf-base", "update-retried-after-failed-attempt"] {
         ctx.count_n(k, 0); // registered so that a probe that never fires shows up as zero in the evidence
     }
     // ---- base image and its model
@@ -141,6 +141,21 @@ pub fn c07_lopdf_updates(ctx: &Ctx, out: &mut RunOut) -> Result<(), Violation> {
         }
         touched.sort();
         touched.dedup();
+        // a quarter of the updates are first attempted on a sink that fails somewhere inside the
+        // appended part; the retry on a healthy sink must give the same revision as if nothing had happened
+        if ctx.chance(simcore::Stream::F, 1, 4, "failed-attempt-first") {
+            let mut probe = Vec::new();
+            if guarded("IncrementalDocument::save_to", || inc.save_to(&mut probe))?.is_ok() && probe.len() > prev.len() {
+                let off = prev.len() + ctx.draw(simcore::Stream::F, (probe.len() - prev.len()) as u64, "attempt-fault-offset") as usize;
+                let mut cfg = draw_benign_sink(ctx);
+                cfg.fault_at = Some((off, simcore::io::FaultKind::Hard(std::io::ErrorKind::Other)));
+                let mut bad = SimSink::new(ctx, cfg);
+                if guarded("IncrementalDocument::save_to(failing sink)", || inc.save_to(&mut bad))?.is_ok() {
+                    return Err(Violation::new("ok-after-hard-fault", format!("step {step}: incremental save returned Ok after a sink fault at byte {off}")));
+                }
+                ctx.count("update-retried-after-failed-attempt");
+            }
+        }
         let mut sink = SimSink::new(ctx, draw_benign_sink(ctx));
         guarded("IncrementalDocument::save_to", || inc.save_to(&mut sink))?
             .map_err(|e| Violation::new("healthy-save-failed", format!("step {step}: incremental save failed: {e}")))?;
@@ -208,6 +223,10 @@ pub fn c07_foreign_on_lopdf(ctx: &Ctx, out: &mut RunOut) -> Result<(), Violation
     // where the base's cross-reference section is, read independently
     let sd = read_strict(&base, &StrictOpts { trusted_prefix: 0, allow_leading_junk: false, binary_comment_optional: false })
         .map_err(|e| Violation::new("strict:rejects", format!("strict reader rejects the lopdf-written base: {e}")))?;
+    // the base must already be what was asked for: otherwise the disagreement would surface below as
+    // a quarrel between the reference writer and the strict reader
+    pdfmodel::same_doc(&m, &sd.doc, &|_, _: &MObj| false)
+        .map_err(|(c, e)| Violation::new(format!("strict:{c}"), format!("strict reader recovers a different document from the lopdf-written base: {e}")))?;
     let seed = Seed { bytes: base.clone(), prev_xref: sd.section_offsets[0] as u64, max_num: sd.doc.max_id, objects: m.objects.clone() };
     // update revisions
     let mut g = gen::Gen::new(ctx, gen::draw_cfg(ctx));
